@@ -70,12 +70,40 @@ def all_types(names, depth):
 
 # --------------------------------------------------------------------------- registries
 
+# --- custom scalars with their OWN parsers (user code). The same three behaviours exist in lean/Driver/C07.lean, where they are
+# handed to the model as its `customParse` / `customParseLiteral` PARAMETERS.
+def _isint(j):
+    return isinstance(j, int) and not isinstance(j, bool)
+
+
+def custom_parse(impl, v):
+    """python-side reference of the sample scalars: ('value', x) | ('refused',) | ('raised',)"""
+    if impl == "even":
+        return ("value", v // 2) if _isint(v) and v % 2 == 0 else ("refused",)
+    if impl == "tagged":
+        if isinstance(v, dict):
+            return ("raised",)
+        return ("value", {"v": v}) if isinstance(v, str) else ("refused",)
+    return ("value", v)
+
+
+def custom_accepts_kind(impl, v):
+    """a value the scalar's own parser can have produced"""
+    if impl == "even":
+        return _isint(v)
+    if impl == "tagged":
+        return isinstance(v, dict) and list(v) == ["v"] and isinstance(v["v"], str)
+    return True
+
+
 def fixed_registry():
     """Hand-written registry: every feature the property talks about."""
     return {"types": [
         {"name": "Int", "kind": "int"}, {"name": "Float", "kind": "float"}, {"name": "String", "kind": "string"},
         {"name": "Boolean", "kind": "boolean"}, {"name": "ID", "kind": "id"},
         {"name": "Any", "kind": "custom"},
+        {"name": "Even", "kind": "custom", "impl": "even"},
+        {"name": "Tag", "kind": "custom", "impl": "tagged"},
         {"name": "E", "kind": "enum", "values": [["A", 10], ["B", "bee"], ["C", "C"], ["D", 1.5]]},
         {"name": "In1", "kind": "input", "fields": [
             {"name": "a", "py": "a_py", "type": N("Int"), "default": [5]},
@@ -202,6 +230,11 @@ def default_for(reg, t, rng, depth):
     if k == "id":
         return rng.choice(["id", "42"])
     if k == "custom":
+        impl = d.get("impl", "identity")
+        if impl == "even":
+            return rng.choice([0, 3, -8])
+        if impl == "tagged":
+            return {"v": "dflt"}
         return rng.choice(["any", 5, [1, "x"]])
     if k == "enum":
         return rng.choice(d["values"])[1]
@@ -259,38 +292,17 @@ def pv_canon(w):
     return pv_from_model(w)
 
 
-def float_cls(f):
-    return "nan" if math.isnan(f) else ("inf" if math.isinf(f) else "finite")
-
-
-def _float_obs(f):
-    integral = int(f) if (math.isfinite(f) and f.is_integer()) else None
-    return repr(f), integral, float_cls(f)
-
-
 def jv_wire(j):
-    """JSON value -> wire, annotated with what Python's own int()/float() builtins say about
-    strings and floats (Python builtins are modelled, not verified)."""
+    """JSON value -> wire. A float travels as its number lexeme (Python's repr of the double); what int() / float() make of
+    strings and floats is computed by the Lean lexeme model (PyGqlModel/PyNum.lean), nothing is annotated here."""
     if j is None or isinstance(j, bool):
         return j
     if isinstance(j, int):
         return j
     if isinstance(j, float):
-        r, integral, cls = _float_obs(j)
-        return {"f": r, "int": integral, "cls": cls}
+        return {"f": repr(j)}
     if isinstance(j, str):
-        try:
-            i10 = int(j, 10)
-        except ValueError:
-            i10 = None
-        flt = None
-        try:
-            f = float(j)
-            r, integral, cls = _float_obs(f)
-            flt = {"r": r, "int": integral, "cls": cls}
-        except ValueError:
-            pass
-        return {"s": j, "i10": i10, "flt": flt}
+        return {"s": j}
     if isinstance(j, list):
         return [jv_wire(x) for x in j]
     if isinstance(j, dict):
@@ -306,8 +318,6 @@ def lit_wire(l):
         return {"k": "list", "v": [lit_wire(x) for x in l[1]]}
     if k == "obj":
         return {"k": "obj", "v": [[n, lit_wire(x)] for n, x in l[1]]}
-    if k == "float":
-        return {"k": k, "v": l[1], "cls": float_cls(float(l[1]))}     # `1e999` is +inf for Python's float()
     return {"k": k, "v": l[1]}
 
 
@@ -326,6 +336,8 @@ def reg_wire(reg):
     out = []
     for t in reg["types"]:
         d = {"name": t["name"], "kind": t["kind"]}
+        if t["kind"] == "custom":
+            d["impl"] = t.get("impl", "identity")
         if t["kind"] == "enum":
             d["values"] = [[n, pv_wire(v)] for n, v in t["values"]]
         if t["kind"] == "input":
@@ -470,7 +482,7 @@ def conforms(reg, t, v, path="value"):
     if k == "boolean":
         return None if isinstance(v, bool) else "Boolean-not-bool"
     if k == "custom":
-        return None
+        return None if custom_accepts_kind(d.get("impl", "identity"), v) else "custom-scalar-value-not-from-its-parser"
     if k == "enum":
         for _, internal in d["values"]:
             if type(internal) is type(v) and internal == v:
@@ -569,6 +581,11 @@ def natural(reg, t, j):
     if k == "id":
         return isinstance(j, str) or isint
     if k == "custom":
+        impl = d.get("impl", "identity")
+        if impl == "even":
+            return isint
+        if impl == "tagged":
+            return isinstance(j, str)
         return isinstance(j, (str, bool))
     if k == "enum":
         return isinstance(j, str) and is_enum_name(j)
@@ -602,7 +619,26 @@ def ints_in_range(reg, t, j):
 def must_accept(reg, t, j):
     """natural kind, no stated defect, integers inside the 32-bit range: the statement requires acceptance
     (full Int range, defaults filled in, single values wrapped)."""
-    return natural(reg, t, j) and not defects(reg, t, j) and ints_in_range(reg, t, j) and _floats_ok(reg, t, j)
+    return natural(reg, t, j) and not defects(reg, t, j) and ints_in_range(reg, t, j) and _floats_ok(reg, t, j) and _customs_accept(reg, t, j)
+
+
+def _customs_accept(reg, t, j):
+    """custom scalars: the statement promises acceptance only of what the scalar's own parser accepts"""
+    if j is None:
+        return True
+    if t[0] == "nonNull":
+        return _customs_accept(reg, t[1], j)
+    if t[0] == "list":
+        if isinstance(j, list):
+            return all(_customs_accept(reg, t[1], x) for x in j)
+        return _customs_accept(reg, t[1], j)
+    d = reg_get(reg, t[1])
+    if d["kind"] == "custom":
+        return custom_parse(d.get("impl", "identity"), j)[0] == "value"
+    if d["kind"] == "input" and isinstance(j, dict):
+        ft = {f["name"]: f["type"] for f in d["fields"]}
+        return all(_customs_accept(reg, ft[key], v) for key, v in j.items() if key in ft)
+    return True
 
 
 def _floats_ok(reg, t, j):
@@ -634,6 +670,11 @@ def leaf_natural(reg, d, rng):
     if k == "id":
         return ["id1", "", 7, -3, 2 ** 40]
     if k == "custom":
+        impl = d.get("impl", "identity")
+        if impl == "even":
+            return [0, 2, -4, 7, 1000, MAX32 + 1]
+        if impl == "tagged":
+            return ["x", "", "é"]
         return ["x", True, ""]
     if k == "enum":
         return [n for n, _ in d["values"]] + ["ZZ", d["values"][0][0].lower()]
@@ -655,6 +696,11 @@ def leaf_wrong(reg, d):
     if k == "id":
         return [1.5, True, [1], ["a"], {}, {"id": 1}]
     if k == "custom":
+        impl = d.get("impl", "identity")
+        if impl == "even":
+            return ["2", 2.0, True, [2], {}, 1.5]
+        if impl == "tagged":
+            return [1, True, {"a": 1}, ["x"], 1.5]
         return [1, 1.5, [1, "a"], {"k": [True]}, {}, float("inf")]
     if k == "enum":
         n0 = d["values"][0][0]
